@@ -1,15 +1,14 @@
 (* RefStmt.v — reference statements of C03 (the statement part of the "model grammar"): SELECT with DISTINCT [ON (...)],
    select list with aliases and `*`, FROM list (possibly schema-qualified names, aliases with or without AS), joins of
    every kind with ON / USING, WHERE, GROUP BY (expressions, ROLLUP (...), CUBE (...)), HAVING, ORDER BY with direction and
-   NULLS FIRST | LAST, LIMIT, OFFSET; set
+   NULLS FIRST | LAST, LIMIT, OFFSET, FETCH FIRST | NEXT; set
    operations (UNION | EXCEPT | INTERSECT [ALL], left-nested as the grammar prescribes); WITH [RECURSIVE] with column
    lists and [NOT] MATERIALIZED; INSERT (VALUES rows | query, ON CONFLICT, RETURNING), UPDATE (SET, WHERE, RETURNING), DELETE
    (WHERE, RETURNING).  Expressions inside statements are the reference expressions of Spec/RefGrammar.v.
 
    [render_*] gives the token list for every parenthesisation choice of every expression ([srho]: clause number and
    position -> [rho]); [ast_of_*] is the prescribed tree (typed mirror of Model/Expr.v).
-   Not in this reference grammar (see design/C03.md): SELECT ALL, t.*, derived tables, LATERAL, GROUPING SETS, FETCH,
-   FOR, sub-query expressions, window functions, ON DUPLICATE KEY, MERGE, DDL.
+   Not in this reference grammar (see design/C03.md): SELECT ALL, t.*, derived tables, LATERAL, GROUPING SETS, FOR, sub-query expressions, window functions, ON DUPLICATE KEY, MERGE, DDL.
    Definitions only. *)
 From Coq Require Import List String Ascii Bool Arith NArith ZArith DecimalString Decimal.
 From GV Require Import Spec.RefGrammar Model.Expr.
@@ -35,7 +34,11 @@ Definition TyFetch := TyOther 368.
 Definition TyMatched := TyOther 371.
 Definition TyTarget := TyOther 372.
 Definition TySource := TyOther 373.
+Definition TyOnly := TyOther 363.
+Definition TyNext := TyOther 369.
 Definition TyMaterialized := TyOther 374.
+Definition TyTies := TyOther 376.
+Definition TyPercent := TyOther 377.
 Definition TyReturning := TyOther 379.
 Definition TyGroupingSets := TyOther 390.
 Definition TyConstraint := TyOther 338.
@@ -72,10 +75,13 @@ Record morder := MkOrder { o_expr : mexpr; o_dir : option bool (* Some true = AS
 Inductive mitem := IStar | IExpr (e : mexpr) (alias : malias).
 Inductive mgroup := GrExpr (e : mexpr) | GrRollup (es : list mexpr) | GrCube (es : list mexpr).   (* e | ROLLUP (..) | CUBE (..) *)
 
+(* FETCH {FIRST | NEXT} n [PERCENT] [ROW | ROWS] {ONLY | WITH TIES} *)
+Record mfetch := MkFetch { ft_next : bool; ft_count : string; ft_percent : bool; ft_rows : option bool (* Some true = ROWS *); ft_ties : bool }.
+
 Record mselect := MkSelect {
   s_distinct : bool; s_distinct_on : list mexpr (* DISTINCT ON ( ... ) *); s_items : list mitem; s_from : list mtable; s_joins : list mjoin;
   s_where : option mexpr; s_group : list mgroup; s_having : option mexpr; s_order : list morder;
-  s_limit : option string; s_offset : option string }.
+  s_limit : option string; s_offset : option string; s_fetch : option mfetch }.
 
 Inductive setop := OUnion | OExcept | OIntersect.
 Inductive mquery :=
@@ -179,6 +185,12 @@ Definition orderby_toks (sr : srho) (l : list morder) : list token :=
   list_clause [Tk TyOrder "ORDER"; Tk TyBy "BY"] (orders_toks sr 0 l).
 Definition limit_toks (o : option string) : list token := opt_clause [Tk TyLimit "LIMIT"] (fun s => [Tk TyNumber s]) o.
 Definition offset_toks (o : option string) : list token := opt_clause [Tk TyOffset "OFFSET"] (fun s => [Tk TyNumber s]) o.
+Definition fetch_toks (o : option mfetch) : list token :=
+  opt_clause [Tk TyFetch "FETCH"]
+    (fun f => (if ft_next f then Tk TyNext "NEXT" else Tk TyFirst "FIRST") :: Tk TyNumber (ft_count f)
+              :: (if ft_percent f then [Tk TyPercent "PERCENT"] else [])
+              ++ match ft_rows f with None => [] | Some true => [Tk TyRows "ROWS"] | Some false => [Tk TyRow "ROW"] end
+              ++ (if ft_ties f then [Tk TyWith "WITH"; Tk TyTies "TIES"] else [Tk TyOnly "ONLY"])) o.
 
 (* everything after the SELECT keyword *)
 Definition select_tail_toks (sr : srho) (s : mselect) : list token :=
@@ -186,7 +198,7 @@ Definition select_tail_toks (sr : srho) (s : mselect) : list token :=
   ++ sep_by [tComma] (items_toks sr 0 (s_items s))
   ++ from_toks (s_from s) ++ joins_toks sr 0 (s_joins s)
   ++ where_toks sr (s_where s) ++ group_toks sr (s_group s) ++ having_toks sr (s_having s)
-  ++ orderby_toks sr (s_order s) ++ limit_toks (s_limit s) ++ offset_toks (s_offset s).
+  ++ orderby_toks sr (s_order s) ++ limit_toks (s_limit s) ++ offset_toks (s_offset s) ++ fetch_toks (s_fetch s).
 Definition render_select (sr : srho) (s : mselect) : list token := Tk TySelect "SELECT" :: select_tail_toks sr s.
 
 Definition setop_tok (op : setop) : token :=
@@ -310,6 +322,8 @@ Definition ast_of_item (it : mitem) : gexpr :=
   end.
 Definition ast_of_order (o : morder) : gorder :=
   GOrder (ast_of (o_expr o)) (match o_dir o with Some false => false | _ => true end) (o_nulls o).
+Definition ast_of_fetch (f : mfetch) : gfetch :=
+  GFetch (if ft_next f then "NEXT" else "FIRST") (Some (dec_value (ft_count f))) (ft_percent f) (ft_ties f).
 Definition ast_of_group (g : mgroup) : gexpr :=
   match g with GrExpr e => ast_of e | GrRollup es => GRollup (map ast_of es) | GrCube es => GCube (map ast_of es) end.
 Definition ast_of_select_w (w : option gwith) (s : mselect) : gselect :=
@@ -318,7 +332,8 @@ Definition ast_of_select_w (w : option gwith) (s : mselect) : gselect :=
           (match from with [] => "" | GTable n _ _ _ :: _ => n end)
           (ast_of_joins (last from (GTable "" "" None false)) 0 (s_joins s))
           (option_map ast_of (s_where s)) (map ast_of_group (s_group s)) (option_map ast_of (s_having s))
-          (map ast_of_order (s_order s)) (option_map dec_value (s_limit s)) (option_map dec_value (s_offset s)) None None.
+          (map ast_of_order (s_order s)) (option_map dec_value (s_limit s)) (option_map dec_value (s_offset s))
+          (option_map ast_of_fetch (s_fetch s)) None.
 Definition ast_of_select := ast_of_select_w None.
 Definition setop_str (op : setop) : string := lit (setop_tok op).
 (* a WITH clause in front of a query belongs to its left-most SELECT *)
@@ -389,12 +404,13 @@ Definition select_ok (s : mselect) : bool :=
   && (match s_from s with [] => match s_joins s with [] => true | _ => false end | _ => true end)
   && forallb join_ok (s_joins s)
   && optb ref_expr (s_where s) && forallb group_ok (s_group s) && optb ref_expr (s_having s)
-  && forallb order_ok (s_order s) && optb number_ok (s_limit s) && optb number_ok (s_offset s).
-(* ORDER BY / LIMIT / OFFSET on an operand of a set operation needs parentheses the grammar of the parser does not
+  && forallb order_ok (s_order s) && optb number_ok (s_limit s) && optb number_ok (s_offset s)
+  && optb (fun f => number_ok (ft_count f)) (s_fetch s).
+(* ORDER BY / LIMIT / OFFSET / FETCH on an operand of a set operation needs parentheses the grammar of the parser does not
    have, and written after the last operand they belong to the whole query expression, for which the tree has no
    slot (listed known finding `setop-trailing-order-by`): operands carry none of them *)
 Definition plain_operand (s : mselect) : bool :=
-  match s_order s, s_limit s, s_offset s with [], None, None => true | _, _, _ => false end.
+  match s_order s, s_limit s, s_offset s, s_fetch s with [], None, None, None => true | _, _, _, _ => false end.
 Fixpoint operands_plain (q : mquery) : bool :=
   match q with QSelect s => plain_operand s | QSetOp l _ _ r => operands_plain l && plain_operand r end.
 Fixpoint query_ok (q : mquery) : bool :=
@@ -537,7 +553,7 @@ Definition ex_select : mselect :=
     (Some (MBin BOr (MIdent false "a") (MBin BAnd (MIdent false "b") (MNot (MIdent false "c")))))
     [GrExpr (MQIdent "u" "id")] (Some (MBin (BCmp CGt) (MFunc "COUNT" false [MIdent false "x"]) (MNum "1")))
     [MkOrder (MIdent false "n") (Some false) (Some false); MkOrder (MNum "1") None None]
-    (Some "10") (Some "5").
+    (Some "10") (Some "5") (Some (MkFetch true "3" false (Some true) true)).
 Example ex_select_ok : select_ok ex_select = true. Proof. reflexivity. Qed.
 Example ex_select_text :
   map lit (render_select (fun _ _ => no_parens) ex_select)
@@ -545,22 +561,22 @@ Example ex_select_text :
      ","; "t"; "LEFT"; "OUTER"; "JOIN"; "orders"; "o"; "ON"; "o"; "."; "uid"; "="; "u"; "."; "id";
      "JOIN"; "items"; "USING"; "("; "oid"; ","; "k"; ")";
      "WHERE"; "a"; "OR"; "b"; "AND"; "NOT"; "c"; "GROUP"; "BY"; "u"; "."; "id"; "HAVING"; "COUNT"; "("; "x"; ")"; ">"; "1";
-     "ORDER"; "BY"; "n"; "DESC"; "NULLS"; "LAST"; ","; "1"; "LIMIT"; "10"; "OFFSET"; "5"].
+     "ORDER"; "BY"; "n"; "DESC"; "NULLS"; "LAST"; ","; "1"; "LIMIT"; "10"; "OFFSET"; "5"; "FETCH"; "NEXT"; "3"; "ROWS"; "WITH"; "TIES"].
 Proof. reflexivity. Qed.
 
 (* a WITH statement over a set operation, and an INSERT ... SELECT ... RETURNING *)
 Definition ex_stmt_with : mstmt :=
   MkStmt (Some (MkWith true [MkCte "c" ["x"; "y"] (Some false)
-                               (QSetOp (QSelect (MkSelect false [] [IExpr (MNum "1") None; IExpr (MNum "2") None] [] [] None [] None [] None None))
+                               (QSetOp (QSelect (MkSelect false [] [IExpr (MNum "1") None; IExpr (MNum "2") None] [] [] None [] None [] None None None))
                                        OUnion true
                                        (MkSelect true [MIdent false "x"] [IExpr (MBin BAdd (MIdent false "x") (MNum "1")) None; IExpr (MIdent false "y") None]
-                                                 [MkTable ["c"] None] [] (Some (MBin (BCmp CLt) (MIdent false "x") (MNum "10"))) [GrRollup [MIdent false "x"; MIdent false "y"]; GrExpr (MNum "1")] None [] None None))]))
+                                                 [MkTable ["c"] None] [] (Some (MBin (BCmp CLt) (MIdent false "x") (MNum "10"))) [GrRollup [MIdent false "x"; MIdent false "y"]; GrExpr (MNum "1")] None [] None None None))]))
          (BQuery (QSelect ex_select)).
 Definition ex_stmt_insert : mstmt :=
   MkStmt None
     (BInsert ["s"; "t"] ["a"; "b"]
        (inr (QSelect (MkSelect false [] [IExpr (MIdent false "a") None; IExpr (MFunc "f" false [MIdent false "b"]) (Some (true, "fb"))]
-                               [MkTable ["u"] None] [] None [] None [] None None)))
+                               [MkTable ["u"] None] [] None [] None [] None None None)))
        (Some (MkConflict (CtCols ["a"]) (CaUpdate [("b", MBin BAdd (MQIdent "excluded" "b") (MNum "1"))] (Some (MBin (BCmp CGt) (MQIdent "t" "a") (MNum "0"))))))
        [MIdent false "a"; MBin BMul (MIdent false "b") (MNum "2")]).
 Example ex_stmts_ok : stmt_ok ex_stmt_with = true /\ stmt_ok ex_stmt_insert = true. Proof. split; reflexivity. Qed.
